@@ -121,6 +121,9 @@ class VStructuralTranslatorL4(
 
   def rtlir_tr_subcomp_decl( s, m, c_id, c_rtype, c_array_type, port_conns, ifc_conns ):
 
+    # The instance name is emitted verbatim
+    s.check_decl( c_id, f"sub-component {c_id} of {m}" )
+
     def pretty_comment( string ):
       comments = [
           '  //-------------------------------------------------------------',
